@@ -420,6 +420,17 @@ impl Mempool {
         for (_, transaction) in &self.transactions {
             self.routing_work_in_mempool += transaction.total_work_for_me;
         }
+        self.rebuild_utxo_map();
+    }
+
+    /// reservations = inputs of the transactions that are still pooled
+    pub fn rebuild_utxo_map(&mut self) {
+        self.utxo_map.clear();
+        for (_, transaction) in &self.transactions {
+            for input in transaction.from.iter() {
+                self.utxo_map.insert(input.utxoset_key, 1);
+            }
+        }
     }
 
     ///
